@@ -11,7 +11,7 @@ def regen_color_tables(ctx):
 
 
 def sweep(ctx):
-    """exact-integer sweep of the colour space in Rust (tool c20sweep): quick = every 7th colour, thorough = all 2^24"""
+    """exact-integer sweep of ALL 2^24 colours x 3 roles x 3 depths in Rust (tool c20sweep, 8 threads), both tiers"""
     import json
     import re
     tab = open(os.path.join(ctx["coq"], "theories", "Gen", "TabColor.v")).read()
@@ -29,20 +29,21 @@ def sweep(ctx):
     path = os.path.join(ctx["build"], "c20_tables.json")
     with open(path, "w") as f:
         json.dump(tables, f)
-    stride = "1" if ctx["tier"] == "thorough" else "7"
+    stride = os.environ.get("VERIF_C20_STRIDE", "1")
     rc, out = ctx["sh"]([ctx["exe"], "tool", "c20sweep", path, stride], cwd=ctx["root"], timeout=3000)
     if rc != 0:
         return {"violations": [{"kind": "broken-correspondence", "what": "c20sweep tool failed: " + out[-500:], "case": {}}]}
     res = json.loads(out.strip().split("\n")[-1])
     vio = [{"kind": "failing-input",
             "what": "exact-integer sweep: the entry chosen by the implementation is more than 1e-6 from the optimum (or the SGR bytes are not of the expected form)",
-            "case": {k: v[k] for k in v}} for v in res["violations"]]
+            "case": {"depth": v.get("depth"), "kind": "sweep", "c": v.get("first", v.get("c")), "role": v.get("role"),
+                     "role_colour": v.get("c"), "observed": v.get("observed")}} for v in res["violations"]]
     return {"violations": vio,
-            "coverage": {"sweep_colours_per_depth": res["checked"], "sweep_stride": res["stride"],
+            "coverage": {"sweep_colours_per_depth_and_role": res["checked"], "sweep_roles": res["roles"], "sweep_stride": res["stride"],
                          "sweep_exhaustive": res["stride"] == 1,
                          "near_ties": res["near_ties"], "differs_from_exact_model": res["differs_from_exact_model"], "worst_excess": res["worst_excess"], "worst_at": res["worst_at"],
                          "tolerance": res["tolerance"]},
-            "notes": ["c20sweep: %d colours per depth (stride %d); %d differ from the exact optimum over the typed tables; against the palette entries placed by the library's own conversion %d are not exactly optimal, worst excess %.3g (tolerance 1e-6)"
+            "notes": ["c20sweep: %d colours per depth and role (fg, bg, underline; stride %d); %d (colour, role) pairs differ from the exact optimum over the typed tables; against the palette entries placed by the library's own conversion %d are not exactly optimal, worst excess %.3g (tolerance 1e-6)"
                       % (res["checked"], res["stride"], res["differs_from_exact_model"], res["near_ties"], res["worst_excess"])]}
 
 
@@ -54,27 +55,30 @@ PROP = {'gen': [],
  'props_module': 'Props.C20',
  'corr_check': 'SNT.Corr.C20Corr.c20_check (exact model Encoder/Color256.v vs the SGR bytes of surf_n_term::encoder::TTYEncoder for '
                'FaceModify{fg,bg,underline_color}; predicate: brute-force minimum over the 240 entries / 4 levels, tolerance 1e-6)',
- 'level_text': 'Coq theorems over an exact-rational model of the colour reduction in color_sgr_encode: for ALL channel values and ANY '
-               'strictly increasing tables (6 cube levels, 24 greys) the selected index is a non-system one whose entry minimises the '
-               'Euclidean distance among all 240 entries (nearest search with the coded tie rule; per-channel separability for the '
-               'cube; mean argument for the grey ramp; final comparison); the tables in the source, re-extracted on every run, are '
-               'strictly increasing and within 1e-6 of the library\'s own linearisation of the xterm levels; hence every 8-bit colour '
-               'gets a closest entry; the grey level is a nearest of the four by luma and monotone in it; true colour transmits the '
-               'channels unchanged (C05 SGR theorem). The f32 implementation is compared BY THE PROPERTY: the palette entry it emits '
-               '(fg, bg and underline roles, parsed by the independent SGR interpreter) must be within 1e-6 in linear-light distance '
-               'of the brute-force optimum over the xterm palette placed by the library\'s own conversion; an exact-integer sweep in '
-               'Rust covers every 7th colour (quick) or all 2^24 (thorough: 30 colours not exactly optimal, worst excess 2.62e-7).',
+ 'level_text': 'Coq theorems about an EXACT-RATIONAL model of the colour reduction in color_sgr_encode (the f32 evaluation of the '
+               'code is not modelled): for ALL channel values and ANY strictly increasing tables (6 cube levels, 24 greys) the selected '
+               'index is a non-system one whose entry minimises the Euclidean distance among all 240 entries (C20_algorithm); the '
+               'tables in the source, re-extracted on every run, are strictly increasing, in [0,1] and within eps = 1e-6 of the '
+               'library\'s own linearisation of the xterm levels (C20_tables); hence for every 8-bit colour the exact model picks a '
+               'closest entry over the typed tables (C20_closest_256_exact_model) and, measured at the true palette positions, a '
+               'closest entry up to 12 eps in squared distance (C20_closest_256_true_palette_upto_eps); the grey level is a nearest of '
+               'the four by luma and monotone in it; the bytes the encoder model emits carry exactly these indices / levels / '
+               'unchanged channels for the fg, bg and underline roles (C20_roles; an underline colour has no grey rendering: nothing is sent, a decision of the code recorded in the specification). FOR '
+               'THE CODE the property is established by running it: on every check ALL 2^24 colours x 3 roles x 3 depths go through '
+               'the real encoder (exact-integer comparison in Rust: entry within eps = 1e-6 in distance of the brute-force optimum '
+               'at the true palette positions, equal to the exact model\'s entry, nearest grey level, unchanged channels, no '
+               'panic), and ~8000 sampled colours are parsed by the independent SGR interpreter and compared in Coq.',
  'level_note': 'Trusted: Coq kernel + vm_compute; translate/enc_tables.py (CUBE, GREYS, grey levels as exact decimals; sRGB->linear '
                'table dumped through LinColor::from as exact values of the f32 results); slice::binary_search_by modelled by its '
                'contract on sorted slices (partition point); luma weights 0.2126/0.7152/0.0722 of rasterize::Color::luma as read; '
-               'f32 evaluation is NOT modelled: the implementation is tied to the exact model by the correspondence with the stated '
-               'tolerance 1e-6 (distance) / 1e-6 (luma). No axioms (Print Assumptions: closed under the global context).',
+               'f32 evaluation is NOT modelled: optimality of the code itself is a run result (exhaustive, tolerance 1e-6 in '
+               'distance; observed worst excess 2.62e-7 on 30 colours), not a theorem. No axioms.',
  'technique': 'Coq proof (sorted-table nearest search, per-channel separability, mean argument for greys) + regenerated tables + '
               'model/implementation correspondence by the property with a stated tolerance',
  'design_ref': 'DESIGN.md 6.20',
- 'n_quick': 6000,
+ 'n_quick': 1500,
  'n_thorough': 200000,
- 'shard': 1000,
+ 'shard': 100,
  'level': 'proof',
  'extra': [sweep],
  'trusted_base': [KERNEL,
